@@ -191,6 +191,39 @@ class DictIter(IterVal):
         return z3.Select(run.field('dict.n'), Value.a(self.ref))
 
 
+class ProductIter(IterVal):
+    """itertools.product(A, B) with B of statically known length m: step k yields (A[k div m], B[k mod m])."""
+
+    def __init__(self, outer, inner_items):
+        self.outer, self.inner = outer, inner_items
+        self.m = len(inner_items)
+
+    def has_next(self, run, k):
+        k = z3.IntVal(k) if isinstance(k, int) else k
+        return k < self.outer.length(run) * self.m
+
+    def item(self, run, k):
+        k = z3.IntVal(k) if isinstance(k, int) else k
+        q = z3.simplify(k / self.m)
+        r = z3.simplify(k % self.m)
+        inner = None
+        for i in reversed(range(self.m)):
+            inner = self.inner[i] if inner is None else z3.If(r == i, self.inner[i], inner)
+        return VTup([self.outer.item(run, q), inner])
+
+    def in_range(self, run, k):
+        return k <= self.outer.length(run) * self.m
+
+    def remaining(self, run, k):
+        return self.outer.length(run) * self.m - k
+
+    def finish(self, run, k):
+        pass
+
+    def length(self, run):
+        return self.outer.length(run) * self.m
+
+
 class GenIter(IterVal):
     """Iteration over a generator object (ghost fields gen.items / gen.n / gen.pos / gen.exc): the k-th step of the
     loop reads item pos0 + k; when the items are exhausted the generator raises its terminal exception, if any."""
@@ -473,6 +506,7 @@ class CallsMixin:
 
     def dict_set(self, d, k, v, node):
         a = Value.a(d)
+        self.static_dicts.pop(z3.simplify(a).sexpr(), None)
         has = z3.Select(z3.Select(self.field('dict.has'), a), k)
         n = z3.Select(self.field('dict.n'), a)
         self.heap['dict.n'] = z3.Store(self.field('dict.n'), a, z3.If(has, n, n + 1))
@@ -983,7 +1017,8 @@ class CallsMixin:
             new = self.fresh('H_' + f, field_sort(f))
             self.heap[f] = new
             self.len_axiom(f)
-            conds = [a < pre_alloc] + [z3.Not(m(a)) for m in mods]
+            # (the class of an allocated object never changes, whoever may modify the object)
+            conds = [a < pre_alloc] + ([] if f == 'cls' else [z3.Not(m(a)) for m in mods])
             body = z3.Implies(z3.And(conds), z3.Select(new, a) == z3.Select(old, a))
             self.assume(z3.ForAll([a], body, patterns=[z3.Select(new, a)]))
         self.alloc = new_alloc
@@ -1085,7 +1120,17 @@ class CallsMixin:
             elif isinstance(n, ast.Call) and isinstance(n.func, ast.Name) and n.func.id in self.eng.specs \
                     and n.func.id not in seen:
                 out |= set(self.spec_fields(self.eng.specs[n.func.id], seen))
-        res = self.BASE_FIELDS + sorted(out - set(self.BASE_FIELDS))
+        reads_heap = bool(out)
+        for n in ast.walk(c.node):
+            if isinstance(n, (ast.Subscript, ast.In, ast.NotIn)):
+                reads_heap = True
+            elif isinstance(n, ast.Call) and isinstance(n.func, ast.Name) and \
+                    n.func.id in ('len', 'typed', 'iter_item', 'iter_len', 'iter_pos', 'dict_eq', 'memo_clean', 'fresh'):
+                reads_heap = True
+            elif isinstance(n, ast.Name) and any(k.endswith('::' + n.id) for k in self.eng.globals_decl):
+                reads_heap = True
+        # a spec function of its arguments only (no heap access) has an opaque form without heap arguments
+        res = (self.BASE_FIELDS + sorted(out - set(self.BASE_FIELDS))) if reads_heap else []
         cache[c.name] = res
         return res
 
@@ -1107,7 +1152,13 @@ class CallsMixin:
             fields = self.spec_fields(c)
             arrs = [self.field(f) for f in fields]
             vals = [self.val(a) for a in args]
-            F = z3.Function('P_' + c.name, *([a.sort() for a in arrs] + [Value] * len(vals) + [B]))
+            body = [st for st in c.node.body if isinstance(st, ast.Return)]
+            e = body[0].value if body else None
+            is_pred = isinstance(e, (ast.BoolOp, ast.Compare)) or \
+                (isinstance(e, ast.UnaryOp) and isinstance(e.op, ast.Not)) or \
+                (isinstance(e, ast.Call) and isinstance(e.func, ast.Name) and
+                 e.func.id in ('all', 'any', 'implies', 'iff', 'typed', 'fresh'))
+            F = z3.Function('P_' + c.name, *([a.sort() for a in arrs] + [Value] * len(vals) + [B if is_pred else Value]))
             return F(*(arrs + vals))
         if _is_recursive(c):
             return self.call_rec_spec(c, args, node)
@@ -1709,7 +1760,22 @@ class CallsMixin:
         return z3.If(has, z3.Select(z3.Select(self.field('dict.val'), a), k), dflt)
 
     def bi_m_items(self, b, args, kwargs, node):
+        st = self.static_dicts.get(z3.simplify(Value.a(b.self_val)).sexpr())
+        if st is not None:
+            return StaticIter([VTup([k, v]) for k, v in st])
         return DictIter(b.self_val, 'items')
+
+    def bi_m_update(self, b, args, kwargs, node):
+        tgt = b.self_val
+        kind = self.ref_kind(tgt, ['set', 'dict'])
+        src = args[0]
+        it = self.as_iter(src, node)
+        if kind != 'set' or not isinstance(it, StaticIter):
+            raise OutOfSubset('update() other than set.update(static sequence)')
+        self.check_write(Value.a(tgt), node)
+        for x in it.items:
+            self.dict_set(tgt, self.val(x), VNone, node)
+        return VNone
 
     def bi_m_keys(self, b, args, kwargs, node):
         return DictIter(b.self_val, 'keys')
@@ -1834,6 +1900,17 @@ class CallsMixin:
             if t != 'VStr':
                 raise PyExc('TypeError', 'match on non-str', implicit='type')
             return self.regex_match(py.__self__.pattern, Value.s(sv), node)
+        import itertools
+        if py is itertools.product:
+            if len(args) != 2 or kwargs:
+                raise OutOfSubset('itertools.product with other than two iterables')
+            outer = self.as_iter(args[0], node)
+            inner = self.as_iter(args[1], node)
+            if not isinstance(inner, StaticIter):
+                raise OutOfSubset('itertools.product: second iterable must be static')
+            if isinstance(outer, StaticIter):
+                return StaticIter([VTup([a, b]) for a in outer.items for b in inner.items])
+            return ProductIter(outer, inner.items)
         if isinstance(py, functools.partial):
             raise OutOfSubset('call of partial')
         owner = getattr(py, '__self__', None)
